@@ -6,7 +6,7 @@ from props._hist import History, Fail, result_fail, sig_from_rec, std_replay
 PROP = "C04"
 LEVEL = "other"
 SELFTEST_PARTS = ("num",)
-WALL_BUDGET = {"quick": 1200, "thorough": 9000}
+WALL_BUDGET = {"quick": 3600, "thorough": 14400}
 # (kind, src, dst, objects touched - closed under ancestor/descendant: anything under /d touches d)
 OPS = [
     ("write", "/a", None, {"a"}), ("delete", "/a", None, {"a"}), ("rename", "/a", "/x", {"a", "x"}),
